@@ -37,7 +37,10 @@ static int g_rounds;
 SDAI_String::SDAI_String(const char *, size_t) {} SDAI_String::~SDAI_String() {} const char *SDAI_String::c_str() const { return "s"; }
 Severity SDAI_String::STEPread(istream &in, ErrorDescriptor *) { in.get(); verif_consume_some(in); return SEVERITY_NULL; }   /* reads at least the opening quote */
 static SDAI_Application_instance *g_obj; static ErrorDescriptor *g_obj_error;
-static SDAI_Application_instance *verif_ObjCreate(const char *) { g_rounds++; return nondet_int() ? g_obj : (nondet_int() ? (SDAI_Application_instance *)0 : ENTITY_NULL); }
+static SDAI_Application_instance *verif_ObjCreate(const char *nm) { g_rounds++;
+    { unsigned long room = __CPROVER_OBJECT_SIZE(nm) - __CPROVER_POINTER_OFFSET(nm); int term = 0; for (unsigned long i = 0; i < 3; i++) if (i < room && nm[i] == 0) term = 1;
+      __CPROVER_assert(term, "C05 the keyword handed to the header registry is a terminated string inside its buffer"); }
+    return nondet_int() ? g_obj : (nondet_int() ? (SDAI_Application_instance *)0 : ENTITY_NULL); }
 static Severity verif_inst_STEPread(SDAI_Application_instance *, int, int, InstMgr *, istream &in, const char *, bool, bool) { verif_consume_some(in); int s = nondet_int(); __CPROVER_assume(s >= SEVERITY_MAX && s <= SEVERITY_NULL); return (Severity)s; }
 static ErrorDescriptor &verif_obj_error(SDAI_Application_instance *) { return *g_obj_error; }
 static void verif_prepend(SDAI_Application_instance *, std::string &) {}
@@ -53,6 +56,9 @@ Severity STEPfile::AppendEntityErrorMsg(ErrorDescriptor *e) { return e->severity
  * characters; the stream may be left in any state - a comment cut off after a '*' leaves it failed WITHOUT the end-of-file mark */
 static void verif_ReadTokenSeparator(istream &in, std::string * = 0) { if (in.eof()) return; verif_consume_some(in); if (!in.good() && nondet_int()) { in._m_state &= ~ios_base::eofbit; in._m_state |= ios_base::failbit; } }
 #include "sep_extract.inc"
+/* ReadHeader's keyword buffer is char[BUFSIZ+1]: BUFSIZ is scaled to 2 so that the 2- and 3-character keywords of the harness reach its end */
+#undef BUFSIZ
+#define BUFSIZ 2
 #include "hdr_extract.inc"
 #undef strncpy
 /* message text is outside these obligations: the message builders of errordesc.cc are no-ops here (the severity lattice is the real inline code) */
